@@ -202,6 +202,15 @@ func mergeContracts(own, iface *Contract, recvName string) *Contract {
 	m.Lets = append(append([]LetDef{}, iface.Lets...), own.Lets...)
 	m.ifaceRecv = iface.RecvName
 	m.ifacePkg = iface
+	// termination is part of the interface-level contract: callers see only that; an implementation inherits the
+	// measure (it may not state a different one) and the obligation to terminate
+	if len(iface.Decreases) > 0 {
+		if len(own.Decreases) > 0 {
+			panic(specError{"decreases: " + own.Key + " implements " + iface.Key + " and inherits its measure; it may not state its own"})
+		}
+		m.Decreases = iface.Decreases
+	}
+	m.Terminates = own.Terminates || iface.Terminates
 	return &m
 }
 
@@ -347,6 +356,7 @@ func (vc *VC) applyContract(st *State, ci *calleeInfo, instr ssa.Instruction, si
 		vc.oblige(st, g, r.Label, "requires", site, clauseProps(r, unionProps(vc.props(), nil)), r.Src, ci.key)
 		st.assume = append(st.assume, g)
 	}
+	vc.measureCheck(st, ci, env, site)
 	// object invariants of the callee's type: inside the owning package the caller is responsible for them (outside,
 	// the representation is out of reach and they hold by the object-invariant methodology)
 	samePkg := vc.contract != nil && vc.contract.Pkg != nil && c.Pkg != nil && vc.contract.Pkg.PkgPath == c.Pkg.PkgPath
@@ -1095,6 +1105,25 @@ func (vc *VC) closureCreationChecks(st *State, mc *ssa.MakeClosure, fn *ssa.Func
 		}
 		vc.oblige(pre, g, "callback-pre:"+r.Label, "subtype", site, clauseProps(r, vc.props()), "interface precondition implies closure precondition: "+r.Src, funcKey(fn))
 		pre.assume = append(pre.assume, g)
+	}
+	// measure: the caller of the interface method only sees the interface-level measure, so the closure's own measure
+	// may not exceed it
+	if len(ic.Decreases) > 0 {
+		if len(cc.Decreases) == 0 {
+			vc.oblige(pre, "false", "callback-measure", "termination", site, vc.props(), "the closure states a measure (the interface-level contract has one: "+measureSrc(ic.Decreases)+")", funcKey(fn))
+		} else {
+			saved := vc.curState
+			vc.curState = pre
+			var mi, mc []Term
+			for _, d := range ic.Decreases {
+				mi = append(mi, vc.trMeasure(ie1, d))
+			}
+			for _, d := range cc.Decreases {
+				mc = append(mc, vc.trMeasure(ce1, d))
+			}
+			vc.curState = saved
+			vc.oblige(pre, lexLessEq(mc, mi), "callback-measure", "termination", site, vc.props(), "("+measureSrc(cc.Decreases)+") of the closure  <=  ("+measureSrc(ic.Decreases)+") of the interface-level contract", funcKey(fn))
+		}
 	}
 	// B: closure postcondition (+ its frame) implies the interface postcondition
 	post := pre.clone()
